@@ -7,6 +7,7 @@ import LentilVerif.Lemmas.PropCommon
 import LentilVerif.Lemmas.Window
 import LentilVerif.Lemmas.PlaneComplex
 import LentilVerif.Props.C09
+import LentilVerif.Props.C04
 import LentilVerif.Props.C07
 /-! # C03 — splitting an aperture into segments never changes the result
 
@@ -691,7 +692,132 @@ theorem segmented_eq_monolithic_propagate_fft (ph : ℝ → ℂ) (w0 : Fld ℂ) 
      = (wfField 1 so.1 so.2 (propagateDftCommon (chainMultiply ph ((s :: ss).map SplitPlane.mono) [w0]) _ _ so.1 so.2 so.1 so.2 1 none 0 0 (0 : ℝ) (0 : ℝ))).get i j
   rw [C07.field_eq_sum _ _ _ i j hi hj, C07.field_eq_sum _ _ _ i j hi hj, key]
 
+/-- the intensity clause for `propagate_fft`: under the hypotheses of `segmented_eq_monolithic_propagate_fft` (and positive shapes of
+the two returned fields) both intensities exist and agree at every sample -/
+theorem segmented_eq_monolithic_propagate_fft_intensity (ph : ℝ → ℂ) (w0 : Fld ℂ) (h0 : w0.size1 = true)
+    (s : SplitPlane ℂ ℝ) (ss : List (SplitPlane ℂ ℝ)) (hwf : ∀ x ∈ s :: ss, x.WF)
+    (hEseg : ExtOK (ss.map fun x => x.seg.boxes) s.seg.boxes) (hEmono : ExtOK (ss.map fun x => x.mono.boxes) s.mono.boxes)
+    (W0 W1 : Int) (dx0 dx1 du0 du1 wl z : ℝ) (os : Int) (shape : Option (Int × Int)) (scrA scrB : Option (Arr ℂ))
+    (lam : ℝ) (S0 S1 : Int) (so : Int × Int) (gA gB : Fld ℂ)
+    (hfA : propagateFft 1 (chainMultiply ph ((s :: ss).map SplitPlane.seg) [w0]) false W0 W1 dx0 dx1 du0 du1 wl z os shape scrA
+      = FftOut.ok lam S0 S1 so gA)
+    (hfB : propagateFft 1 (chainMultiply ph ((s :: ss).map SplitPlane.mono) [w0]) false W0 W1 dx0 dx1 du0 du1 wl z os shape scrB
+      = FftOut.ok lam S0 S1 so gB)
+    (hcons : dx0 * du0 = dx1 * du1 ∨ (S0 : ℝ) * (dx0 * du0) = (S1 : ℝ) * (dx1 * du1))
+    (hp : dx0 * du0 ≠ 0) (hp1 : dx1 * du1 ≠ 0) (hz : z ≠ 0) (hos : 0 < os) (hS : 0 < S0 ∧ 0 < S1)
+    (hW : 0 ≤ W0 ∧ W0 ≤ S0 ∧ 0 ≤ W1 ∧ W1 ≤ S1)
+    (hfitA : ∀ f ∈ chainMultiply ph ((s :: ss).map SplitPlane.seg) [w0], f.within W0 W1)
+    (hfitB : ∀ f ∈ chainMultiply ph ((s :: ss).map SplitPlane.mono) [w0], f.within W0 W1)
+    (hgA : 0 < gA.arr.s0 ∧ 0 < gA.arr.s1) (hgB : 0 < gB.arr.s0 ∧ 0 < gB.arr.s1)
+    (hso : 0 < so.1 ∧ 0 < so.2) (nsq : ℂ → ℂ) (hn : nsq 0 = 0) (i j : Int) (hi : 0 ≤ i ∧ i < so.1) (hj : 0 ≤ j ∧ j < so.2) :
+    ∃ IA IB, wfIntensity 1 nsq so.1 so.2 [gA] = some IA ∧ wfIntensity 1 nsq so.1 so.2 [gB] = some IB ∧ IA.get i j = IB.get i j := by
+  have hf := segmented_eq_monolithic_propagate_fft ph w0 h0 s ss hwf hEseg hEmono W0 W1 dx0 dx1 du0 du1 wl z os shape scrA scrB
+    lam S0 S1 so gA gB hfA hfB hcons hp hp1 hz hos hS hW hfitA hfitB hso i j hi hj
+  have e : ∀ X : List (Fld ℂ), wavefrontField 1 X so.1 so.2 = wfField 1 so.1 so.2 X := fun X => (wfField_eq 1 so.1 so.2 X).symm
+  rw [e, e] at hf
+  obtain ⟨IA, hIA, _, _, hgetA⟩ := C07.intensity_eq_normSq_field_total nsq hn so.1 so.2 [gA]
+    (by intro f hf'; simp only [List.mem_cons, List.not_mem_nil, or_false] at hf'; subst hf'; exact hgA)
+  obtain ⟨IB, hIB, _, _, hgetB⟩ := C07.intensity_eq_normSq_field_total nsq hn so.1 so.2 [gB]
+    (by intro f hf'; simp only [List.mem_cons, List.not_mem_nil, or_false] at hf'; subst hf'; exact hgB)
+  exact ⟨IA, IB, hIA, hIB, by rw [hgetA i j hi hj, hgetB i j hi hj, hf]⟩
+
 end fft
+
+section anywindow
+variable {K R : Type} [Add R] [Sub R] [Mul R] [Neg R] [RealLike R] [NonUnitalNonAssocSemiring K] [CxLike K R]
+
+/-- **additivity of the propagation of one field loop body, for any output window**: builderB's `propagateField` (the body of
+`propagate_dft`'s loop) with a common shift, any output extent `oe` (whole array or mask box) and any propagation shape —
+descriptions with the same total embedded field give the same summed output at every global coordinate (a dropped field
+counts as zero, `embO`) -/
+theorem propagateField_linear (A B : List (Fld K)) (hA : ∀ f ∈ A, 0 < f.arr.s0 ∧ 0 < f.arr.s1) (hB : ∀ f ∈ B, 0 < f.arr.s0 ∧ 0 < f.arr.s1)
+    (htot : ∀ r c, sumList A (fun f => f.emb r c) = sumList B (fun f => f.emb r c))
+    (αr αc : R) (oe : Extent) (P0 P1 fix0 fix1 : Int) (sub0 sub1 : R) (r c : Int) :
+    sumList A (fun f => embO (propagateField ⟨f, fix0, fix1, sub0, sub1⟩ αr αc oe P0 P1) r c)
+      = sumList B (fun f => embO (propagateField ⟨f, fix0, fix1, sub0, sub1⟩ αr αc oe P0 P1) r c) := by
+  have hoe : outExtent 0 0 (some oe) = oe := by rw [outExtent_mask]; cases oe; simp
+  have key : ∀ X : List (Fld K), sumList (propagateDftCommon X αr αc 0 0 P0 P1 1 (some oe) fix0 fix1 sub0 sub1) (fun g => g.emb r c)
+      = sumList X (fun f => embO (propagateField ⟨f, fix0, fix1, sub0, sub1⟩ αr αc oe P0 P1) r c) := by
+    intro X
+    unfold propagateDftCommon propagateDft
+    rw [List.filterMap_map, sumList_filterMap]
+    apply sumList_congr
+    intro f _
+    simp only [Function.comp_def, Gen.dftShapeOut, Gen.dftPropShapeOut, Int.mul_one, Int.zero_mul, hoe]
+    cases propagateField ⟨f, fix0, fix1, sub0, sub1⟩ αr αc oe P0 P1 <;> rfl
+  rw [← key A, ← key B]
+  exact propagate_common_linear A B hA hB htot αr αc 0 0 P0 P1 1 (some oe) fix0 fix1 sub0 sub1 r c
+
+end anywindow
+
+section afterprop
+variable {K R : Type} [Add R] [Sub R] [Mul R] [Neg R] [RealLike R] [NonAssocSemiring K] [CxLike K R]
+
+/-- **a plane after a propagation** (chains of planes AND propagations, one more link): two descriptions with the same total field are
+propagated (common shift, any window) and then pass a masked plane (e.g. an image-plane mask given in segments `l`); if the
+propagation window is not a single sample, the total field after the plane is again the same for both, at every pixel — the
+propagated total times the plane's transmission (`C07.plane_multiply_pointwise` after `propagate_common_linear`) -/
+theorem plane_after_propagation (ph : R → K) (amp : Attr K) (opd : Attr R) (T0 T1 : Int) (l : List Seg)
+    (hc : ∀ g ∈ l, g.covers T0 T1)
+    (hbig : ∀ g ∈ l, g.s.r0 < g.s.r1 ∧ g.s.c0 < g.s.c1 ∧ ¬ (g.s.r1 - g.s.r0 = 1 ∧ g.s.c1 - g.s.c0 = 1))
+    (X Y : List (Fld K)) (hX : ∀ f ∈ X, 0 < f.arr.s0 ∧ 0 < f.arr.s1) (hY : ∀ f ∈ Y, 0 < f.arr.s0 ∧ 0 < f.arr.s1)
+    (htot : ∀ r c, sumList X (fun f => f.emb r c) = sumList Y (fun f => f.emb r c))
+    (αr αc : R) (S0 S1 P0 P1 os : Int) (mask : Option Extent) (fix0 fix1 : Int) (sub0 sub1 : R)
+    (hoe : (outExtent (S0 * os) (S1 * os) mask).rmin ≤ (outExtent (S0 * os) (S1 * os) mask).rmax ∧
+           (outExtent (S0 * os) (S1 * os) mask).cmin ≤ (outExtent (S0 * os) (S1 * os) mask).cmax)
+    (hP : 0 < P0 * os ∧ 0 < P1 * os)
+    (h1X : ∀ g ∈ propagateDftCommon X αr αc S0 S1 P0 P1 os mask fix0 fix1 sub0 sub1, g.size1 = false)
+    (h1Y : ∀ g ∈ propagateDftCommon Y αr αc S0 S1 P0 P1 os mask fix0 fix1 sub0 sub1, g.size1 = false) (r c : Int) :
+    sumList (planeMultiply ph ⟨amp, opd, .segs T0 T1 l⟩ (propagateDftCommon X αr αc S0 S1 P0 P1 os mask fix0 fix1 sub0 sub1)) (fun g => g.emb r c)
+      = sumList (planeMultiply ph ⟨amp, opd, .segs T0 T1 l⟩ (propagateDftCommon Y αr αc S0 S1 P0 P1 os mask fix0 fix1 sub0 sub1)) (fun g => g.emb r c) := by
+  rw [C07.plane_multiply_pointwise ph amp opd T0 T1 l hc hbig _ (propagate_common_pos X αr αc S0 S1 P0 P1 os mask fix0 fix1 sub0 sub1 hoe hP) r c,
+      C07.plane_multiply_pointwise ph amp opd T0 T1 l hc hbig _ (propagate_common_pos Y αr αc S0 S1 P0 P1 os mask fix0 fix1 sub0 sub1 hoe hP) r c]
+  congr 1
+  have eX : sumList (propagateDftCommon X αr αc S0 S1 P0 P1 os mask fix0 fix1 sub0 sub1) (fun f => f.sem r c)
+      = sumList (propagateDftCommon X αr αc S0 S1 P0 P1 os mask fix0 fix1 sub0 sub1) (fun f => f.emb r c) := by
+    apply sumList_congr; intro g hg; simp only [Fld.sem, h1X g hg, Bool.false_eq_true, if_false]
+  have eY : sumList (propagateDftCommon Y αr αc S0 S1 P0 P1 os mask fix0 fix1 sub0 sub1) (fun f => f.sem r c)
+      = sumList (propagateDftCommon Y αr αc S0 S1 P0 P1 os mask fix0 fix1 sub0 sub1) (fun f => f.emb r c) := by
+    apply sumList_congr; intro g hg; simp only [Fld.sem, h1Y g hg, Bool.false_eq_true, if_false]
+  rw [eX, eY]
+  exact propagate_common_linear X Y hX hY htot αr αc S0 S1 P0 P1 os mask fix0 fix1 sub0 sub1 r c
+
+end afterprop
+
+section fitted
+
+/-- **segments with their own fitted tilts against the monolithic aperture** (`K = ℂ`; composes C04 `segmented_tilt_equiv_complex`
+with `propagateField_linear`): the fields of the segments, each carrying its own tilt as metadata (what `fit_tilt` on a segmented
+plane produces: a different shift and window per field), sum — at every output coordinate that lies in every segment's window and
+in the window of the tilt-free propagation — to the propagated field of ANY description `M` whose total embedded field equals that
+of the segments with their ramps written back into the OPD (`htot`; e.g. the monolithic plane, by `segments_sum` /
+`segmented_eq_monolithic`). Outside the common window the two computations crop differently and are not claimed equal. -/
+theorem fitted_tilts_eq_monolithic (segs : List (SegTilt ℂ ℝ)) (M : List (Fld ℂ)) (dx0 dx1 du0 du1 wl z : ℝ) (os : Int)
+    (hw : wl ≠ 0) (hz : z ≠ 0) (hos : os ≠ 0) (hdu : du0 ≠ 0 ∧ du1 ≠ 0)
+    (hsplit : ∀ s ∈ segs, ((s.fix0 : ℝ) + s.sub0, (s.fix1 : ℝ) + s.sub1) = fieldShift [TiltEl.angular s.thx s.thy] z wl du0 du1 os true)
+    (hpos : ∀ s ∈ segs, 0 < s.s0 ∧ 0 < s.s1) (hM : ∀ f ∈ M, 0 < f.arr.s0 ∧ 0 < f.arr.s1)
+    (htot : ∀ r c, sumList segs (fun s => (phasorField s.amp (fun x y => s.opd0 x y + (s.thx * RealLike.ofInt (cc s.s0 x + s.o0) * dx0
+          - s.thy * RealLike.ofInt (cc s.s1 y + s.o1) * dx1)) wl s.s0 s.s1 s.o0 s.o1 : Fld ℂ).emb r c) = sumList M (fun f => f.emb r c))
+    (oe oe' : Extent) (P0 P1 P0' P1' : Int)
+    (hoe : oe.rmin ≤ oe.rmax ∧ oe.cmin ≤ oe.cmax) (hP : 0 < P0 ∧ 0 < P1)
+    (hoe' : oe'.rmin ≤ oe'.rmax ∧ oe'.cmin ≤ oe'.cmax) (hP' : 0 < P0' ∧ 0 < P1') (r c : Int)
+    (hin : ∀ s ∈ segs, (oe.inb r c && (propExtent P0 P1 s.fix0 s.fix1).inb r c) = true)
+    (hin' : (oe'.inb r c && (propExtent P0' P1' 0 0).inb r c) = true) :
+    (segs.map fun s => embO (propagateField ⟨phasorField s.amp s.opd0 wl s.s0 s.s1 s.o0 s.o1, s.fix0, s.fix1, s.sub0, s.sub1⟩
+        (dftAlpha dx0 dx1 du0 du1 wl z os).1 (dftAlpha dx0 dx1 du0 du1 wl z os).2 oe P0 P1) r c).sum
+      = sumList M (fun f => embO (propagateField ⟨f, 0, 0, 0, 0⟩
+          (dftAlpha dx0 dx1 du0 du1 wl z os).1 (dftAlpha dx0 dx1 du0 du1 wl z os).2 oe' P0' P1') r c) := by
+  rw [C04.segmented_tilt_equiv_complex segs dx0 dx1 du0 du1 wl z os hw hz hos hdu hsplit oe oe' P0 P1 P0' P1' hoe hP hoe' hP' r c hin hin']
+  have hA : ∀ f ∈ segs.map (fun s => (phasorField s.amp (fun x y => s.opd0 x y + (s.thx * RealLike.ofInt (cc s.s0 x + s.o0) * dx0
+          - s.thy * RealLike.ofInt (cc s.s1 y + s.o1) * dx1)) wl s.s0 s.s1 s.o0 s.o1 : Fld ℂ)), 0 < f.arr.s0 ∧ 0 < f.arr.s1 := by
+    intro f hf
+    obtain ⟨s, hs, rfl⟩ := List.mem_map.mp hf
+    exact hpos s hs
+  have key := propagateField_linear _ M hA hM (by intro r c; rw [sumList_map]; exact htot r c)
+    (dftAlpha dx0 dx1 du0 du1 wl z os).1 (dftAlpha dx0 dx1 du0 du1 wl z os).2 oe' P0' P1' 0 0 (0 : ℝ) (0 : ℝ) r c
+  rw [← key, sumList_map, sumList_eq_sum]
+
+end fitted
 
 section interleaved_e2e
 variable {K R : Type} [Add R] [Sub R] [Mul R] [Neg R] [RealLike R] [NonAssocSemiring K] [CxLike K R]
